@@ -880,9 +880,20 @@ func (a *Adapter) Purge() {
 	a.items = nil
 }
 func (a *Adapter) Close() error { a.closed = true; return nil }
+// Dequeue without an acknowledgement id is destructive: the item leaves the adapter for good.
 func (a *Adapter) Dequeue() (any, bool) {
-	v, ok, _ := a.DequeueWithAckId()
-	return v, ok
+	vrt.Point(vrt.OpPlain, nil, nil)
+	if len(a.items) == 0 || a.fault() {
+		a.Log = append(a.Log, AdCall{Seq: a.h.ev("mark", "ad.deq-plain", -1, "false"), Op: "deq-plain"})
+		return nil, false
+	}
+	it := a.items[0]
+	a.items = a.items[1:]
+	a.Log = append(a.Log, AdCall{Seq: a.h.ev("mark", "ad.deq-plain", -1, "true"), Op: "deq-plain", OK: true, Data: string(it.data)})
+	if it.raw != nil {
+		return it.raw, true
+	}
+	return it.data, true
 }
 func (a *Adapter) Subscribe(f func(string)) {
 	a.subs = append(a.subs, f)
@@ -907,6 +918,19 @@ func (a *Adapter) enqueue(item any, prio int) bool {
 		a.items = append(a.items, it)
 	}
 	a.Log = append(a.Log, AdCall{Seq: a.h.ev("mark", "ad.enq", -1, "true"), Op: "enq", OK: true, Data: string(b)})
+	if a.AsyncNotify {
+		// the announcement travels separately from the store (pub/sub): it may arrive after later stores
+		subs, subW := a.subs, a.subW
+		go func() {
+			for i, s := range subs {
+				if w := subW[i]; w != nil {
+					w.Notified++
+				}
+				s("enqueued")
+			}
+		}()
+		return true
+	}
 	for i, s := range a.subs {
 		if w := a.subW[i]; w != nil {
 			w.Notified++
